@@ -44,6 +44,9 @@ func ToMiningConfigureResult(m *MiningResult) (*MiningConfigureResult, error) {
 	if err != nil {
 		return nil, err
 	}
+	if result.VersionRollingMask != "" && !isHexN(result.VersionRollingMask, hexWordDigits) {
+		return nil, shapeErr("version-rolling.mask is not a 32-bit hex field")
+	}
 	return &MiningConfigureResult{
 		ID:     m.ID,
 		Result: *result,
